@@ -40,8 +40,11 @@ type Op struct {
 	Parts     [][]byte `json:"parts,omitempty"`
 	ResumeAt  []int    `json:"resume_at,omitempty"`
 	ResumeNeg bool     `json:"resume_neg,omitempty"`
-	StopAfter int      `json:"stop_after,omitempty"` // listings: consumer declines after this many items (0 = never)
-	MaxItems  int      `json:"max_items,omitempty"`  // listings: give up (marker item RUNAWAY-LISTING) beyond this many items (0 = 200000)
+	// ResumeDelta is added to Size() at every resume point (a stale or premature offset); only
+	// directed scenarios set it, and only with non-empty parts.
+	ResumeDelta int64 `json:"resume_delta,omitempty"`
+	StopAfter   int   `json:"stop_after,omitempty"` // listings: consumer declines after this many items (0 = never)
+	MaxItems    int   `json:"max_items,omitempty"`  // listings: give up (marker item RUNAWAY-LISTING) beyond this many items (0 = 200000)
 }
 
 func (o *Op) String() string {
@@ -89,6 +92,9 @@ func (o *Op) String() string {
 		}
 		f("parts", ls)
 		f("resume_at", o.ResumeAt)
+		if o.ResumeDelta != 0 {
+			f("resume_delta", o.ResumeDelta)
+		}
 	}
 	s := strings.TrimRight(b.String(), " ")
 	return s + ")"
@@ -507,6 +513,8 @@ func (e *Env) upload(op *Op) *Outcome {
 			off := w.Size()
 			if op.ResumeNeg {
 				off = -1
+			} else if off+op.ResumeDelta >= 0 {
+				off += op.ResumeDelta
 			}
 			w2, err := r.PushBlobChunkedResume(ctx, op.Repo, w.ID(), off, op.Hint)
 			if err != nil {
